@@ -6,7 +6,11 @@
 //   - "Empty batch" means a batch holding zero records.  Records with an empty
 //     nucleotide sequence are a different subject (FormatFastaBatch reports them
 //     with log.Fatalf unless --skip-empty): every generated record has >= 1
-//     nucleotide.
+//     nucleotide - except under the skip-empty option (skipempty_test.go), where
+//     records of length zero are part of the histories of the writers that honour
+//     the option (WriteFasta, WriteFastq, WriteSequence) and are expected to be
+//     left out of the output ("sequences of length equal to zero are suppressed
+//     from the output"), every other record being written once, in order.
 //   - A history is a permutation of the batch numbers 0..n-1 (each number exactly
 //     once, none missing): that is what every producer in the tree delivers.
 //     Streams with a missing or a repeated number are out of the statement.
@@ -104,7 +108,8 @@ func TestMain(m *testing.M) {
 		"TestPropReuseToFile: WriteSequencesToFile / WriteFastaToFile / WriteFastqToFile / WriteJSONToFile (1 in 4 with paired reads and WritePairedReadsTo) x content found at the path before the first run (absent, empty, random bytes / zeros / newlines of the length of the first output -4097..+70000) x 1..4 successive runs to the same path with shrinking / growing / equal / random outputs, per-run gzip and append flags, 1..4 workers; oracle: each run on a fresh path passes the oracle above, and the reused file is exactly [previous content if append +] the fresh output (gunzipped text compared when compressed: one complete gzip stream, nothing after it); non-trivial = some run finds a non-empty file at its path. "+
 		"TestPropCLICompress: obiconvert (FASTA/FASTQ/JSON output) / obigrep -l / obicsv -i -s [...] on 1..3 generated input files (a few records; 20..400 records; 0.5..4 MB of thousands of records; 1..5 sequences of 0.2..4 MB; FASTA one-line or folded, FASTQ) in the orders small+BIG, BIG, BIG+small, small+BIG+small, BIG+BIG, medium+BIG, stdout or -o, --max-cpu default/1/2/8; oracle: the run without -Z holds every (selected) input record once in input order (independent FASTA/FASTQ parsers, encoding/json array, encoding/csv header + rows), the run with -Z is one complete gzip stream of exactly the same bytes; non-trivial = an input file of >= 0.5 MB. "+
 		"TestPropCLIReuse: obiconvert -o (also --paired-with: _R1/_R2 files), obigrep -o --save-discarded, obidistribute -c -p [--append], with/without -Z and output format flags, 1..3 runs in one directory on inputs of shrinking / growing / equal / random sizes (1..300 records), directory optionally holding files of any content under the output names before the first run; oracle: after each run every output file equals what the same command line writes in an empty directory (previous content + that with --append); non-trivial = some run finds its output names in use. "+
-		"TestPropLongBacklog / TestPropGatedBacklog (backlog_test.go): histories of up to ~6000 batches (thorough: up to 140000) of 1..2 tiny records, stored compactly as (n, base order = identity or blocks of B numbers in decreasing order, displaced chunks {chunk, arrives right after chunk}) and rebuilt: 8..5000 chunks (thorough also 16384, 65536 +-1 and any size up to 70000; sizes drawn on 255..257, 1023..1027, 2047..2049, 4095..4097) parked behind ONE late chunk, with 0..3 holes inside the backlog (chunks that arrive just after the late one, or up to 60 chunks later), then 0..1100 further chunks; two such backlogs in a row; blocks in decreasing order (the list fills to B-1 and empties, again and again) with displaced chunks; 1..6 chunks displaced at random; one chunk more than 1020 positions early or late; empty batches every 2nd/3rd/7th; gzip, CloseFile, the 6 writers. Controlled = one formatting worker or WriteSeqFileChunk fed directly (arrival order = the rebuilt permutation). Gated = WriteFasta/WriteFastq/WriteJSON/WriteCSV/WriteSequence with 2..8 formatting workers, batches pushed in increasing number, at most workers-1 displaced batches held back inside their formatting worker (the text form of the annotation 'batch' of their first record is produced only when the returned iterator has delivered the batch they follow and as many batches as precede them in the rebuilt permutation): the backlog and the holes are guaranteed without any timing assumption. Same oracle. Non-trivial = the model of the waiting list reaches 256 waiting chunks and some drain stops at a hole (chunks left waiting behind a number that has not arrived).")
+		"TestPropLongBacklog / TestPropGatedBacklog (backlog_test.go): histories of up to ~6000 batches (thorough: up to 140000) of 1..2 tiny records, stored compactly as (n, base order = identity or blocks of B numbers in decreasing order, displaced chunks {chunk, arrives right after chunk}) and rebuilt: 8..5000 chunks (thorough also 16384, 65536 +-1 and any size up to 70000; sizes drawn on 255..257, 1023..1027, 2047..2049, 4095..4097) parked behind ONE late chunk, with 0..3 holes inside the backlog (chunks that arrive just after the late one, or up to 60 chunks later), then 0..1100 further chunks; two such backlogs in a row; blocks in decreasing order (the list fills to B-1 and empties, again and again) with displaced chunks; 1..6 chunks displaced at random; one chunk more than 1020 positions early or late; empty batches every 2nd/3rd/7th; gzip, CloseFile, the 6 writers. Controlled = one formatting worker or WriteSeqFileChunk fed directly (arrival order = the rebuilt permutation). Gated = WriteFasta/WriteFastq/WriteJSON/WriteCSV/WriteSequence with 2..8 formatting workers, batches pushed in increasing number, at most workers-1 displaced batches held back inside their formatting worker (the text form of the annotation 'batch' of their first record is produced only when the returned iterator has delivered the batch they follow and as many batches as precede them in the rebuilt permutation): the backlog and the holes are guaranteed without any timing assumption. Same oracle. Non-trivial = the model of the waiting list reaches 256 waiting chunks and some drain stops at a hole (chunks left waiting behind a number that has not arrived). "+
+		"TestExhaustiveSkipEmpty / TestPropSkipEmpty (skipempty_test.go): the writers are given OptionsSkipEmptySequence(true) (--skip-empty) and, for WriteFasta / WriteFastq / WriteSequence, records of length zero are mixed in (case = record lengths per batch): each batch holds no record / only records of length zero / some records of length zero (first, last, inner) / none, at any batch position (spreads: mixed, mostly blank, all blank, exactly one blank batch, mostly full), x arrival permutation x 1 worker (3 in 4) or 2..8 workers with jitter x gzip x CloseFile; exhaustive for 1..4 (quick) / 1..5 (thorough) batches over all permutations x all assignments of the four batch kinds; random histories of 1..12 and 66..200 batches; WriteJSON / WriteCSV with the option on and no record of length zero (the option changes nothing). Oracle: the one above on the records of non-zero length: each exactly once in batch order, nothing else, nothing left parked, Close as requested. Non-trivial = some batch holding only records of length zero (its formatted text is empty) has a batch with a record to write after it.")
 	evid.Main(m, "C04")
 }
 
